@@ -83,6 +83,13 @@ class Ref:
             return 0.0
         return float(self._cum[min(k, self._grid)])
 
+    def cdf_int_raw(self, x):
+        """Schulz-Zimm: the documented density summed over the integers up to x, NOT normalised (what a library that samples the
+        documented formula on the integers computes)"""
+        if self.family != "schulz_zimm":
+            return self.cdf(x)
+        return self.cdf_int(x) * self.int_total()
+
     def int_total(self):
         """sum of the documented Schulz-Zimm density over the integers"""
         self.cdf_int(1.0)
